@@ -669,6 +669,11 @@ func (x *CommonLex) Next() rune {
 	if c == utf8.RuneError && size == 1 {
 		return xutils.ERR
 	}
+	if c == xutils.EOF {
+		// A NUL character in the text is not the end of the text (EOF is
+		// represented by rune 0): it is invalid input, like a malformed byte.
+		return xutils.ERR
+	}
 	return c
 }
 
@@ -697,7 +702,7 @@ func next(line []byte) (rune, []byte) {
 	}
 	c, size := utf8.DecodeRune(line)
 	line = line[size:]
-	if c == utf8.RuneError && size == 1 {
+	if (c == utf8.RuneError && size == 1) || c == xutils.EOF {
 		return xutils.ERR, nil
 	}
 	return c, line
